@@ -133,6 +133,9 @@ def issues_from_crashes(ctx, crashes, label):
     for c in crashes:
         if c["rc"] in QUIET_RC:
             continue        # reported through the trace
+        if c["rc"] == 3 and "live-block set full" in c["stderr"]:
+            continue        # the input made the loader allocate > 5e5 blocks:
+                            # beyond the harness's accounting, not judged
         s = vlib.sanitizer_signature(c["stderr"])
         if s is None:
             s = ("exit%d" % c["rc"], "?")
@@ -155,6 +158,24 @@ def _nontrivial(lines):
         if ln.startswith('{"e":"Load"'):
             return '"mut":"none"' not in ln and '"len":0,' not in ln
     return False
+
+
+def _seed_issues(tr):
+    """an unmutated seed that the loader refuses is a save/load defect (C06 /
+    C08 territory), not a totality defect: reported against those"""
+    issues, seen = [], set()
+    with open(tr) as fp:
+        for ln in fp:
+            if ln.startswith('{"e":"Load"') and '"mut":"none"' in ln and '"ok":0' in ln:
+                ev = json.loads(ln)
+                sig = "LoadContract:seed-refused:%s:%s" % (ev["kind"], ev["seed"])
+                if sig not in seen:
+                    seen.add(sig)
+                    issues.append(vlib.Issue(
+                        {"C06", "C08"}, sig,
+                        "valid seed %s #%s is refused by its loader (%s)" %
+                        (ev["kind"], ev["seed"], ev["err"])))
+    return issues
 
 
 def _tally(tr, stats):
@@ -183,7 +204,10 @@ def _run_mode(ctx, exe, label, name, mkargs, total, stats, issues, nshards=None,
                                         _case_index, nshards=nshards,
                                         timeout=timeout, env=_env(ctx))
     issues += issues_from_crashes(ctx, crashes, label)
-    stats["crashes"] += len([c for c in crashes if c["rc"] not in QUIET_RC])
+    stats["crashes"] += len([c for c in crashes if c["rc"] not in QUIET_RC
+                             and not (c["rc"] == 3 and "live-block set full" in c["stderr"])])
+    stats["unjudged_huge"] = stats.get("unjudged_huge", 0) + len(
+        [c for c in crashes if c["rc"] == 3 and "live-block set full" in c["stderr"]])
     stats["restarts"] += len([c for c in crashes if c["rc"] in QUIET_RC])
     stats["gave_up"] += len([c for c in crashes if c.get("gave_up")])
     for p in paths:
@@ -193,6 +217,7 @@ def _run_mode(ctx, exe, label, name, mkargs, total, stats, issues, nshards=None,
                                 shards=vlib.NCPU)
     ctx.machinery_errors += res["errors"]
     issues += issues_from_validation(ctx, res, label)
+    issues += _seed_issues(tr)
     stats["events"] += res["events"]
     stats["episodes"] += res["episodes"]
     stats["tlc_generated"] += res["generated"]
